@@ -1,5 +1,5 @@
 """C18 — the stack extension is gated by its feature flag, and only it."""
-from ..facts import callee_of, short, sp_file_line, expr_str, op_local
+from ..facts import callee_of, short, sp_file_line, expr_str, expr_walk, op_local
 from .. import kit, tables
 from ..effects import Effects
 
@@ -71,6 +71,22 @@ def run(ctx):
                       "flag-gated mnemonics %s differ from the mnemonics mapped to stack instructions %s: %s"
                       % (sorted(gate), sorted(stack_lits),
                          "an ungated stack mnemonic assembles without -f stack" if stack_lits - gate else "a non-stack identifier is rejected when the flag is off"))
+    # the gate and the mapping must look at the same string: a gate on the text as written next to a mapping on the
+    # lower-cased identifier lets `PUSH` through ungated
+    def subject(gb):
+        t = lx.term(gb)
+        es = [lx.expr(a, 12) for a in t["args"]]
+        es = [e for e in es if not any(x[0] == "str" for x in expr_walk(e))]
+        return es[0] if len(es) == 1 else None
+    subj = {}
+    for lit, val, tb, gb in tab:
+        subj.setdefault(repr(subject(gb)), []).append(lit)
+    ctx.oblig(len(subj) == 1 and "None" not in subj, {"keyword tests compare": [expr_str(subject(tab[0][3]) or ("unknown",), 60)]}, "one subject for the gate and the mapping")
+    if not (len(subj) == 1 and "None" not in subj):
+        gate_subj = {repr(subject(gb)) for lit, val, tb, gb in tab if lit in gate and any(fb in lx.reachable(tb, avoid=guard_blocks - {gb}) for fb in flag_blocks)}
+        ctx.violation("gate-subject", lx.file_line(),
+                      "the keyword tests of the lexer compare %d different strings (%s): the feature gate and the mnemonic mapping can disagree on "
+                      "spellings that differ only in case" % (len(subj), "; ".join("`%s` for %s" % (expr_str(subject([g for l, v_, t_, g in tab if l == v[0]][0]) or ("unknown",), 70), sorted(set(v))[:4]) for k, v in sorted(subj.items()))))
     ctx.oblig(only, {"flag consulted": "only under the gated strings"}, "unreachable once the gated true-edges are cut")
     if not only:
         ctx.violation("flag-outside-gate", sp_file_line(lx.term(flag_blocks[0]).get("sp")), "the lexer evaluates the feature flag for identifiers other than the four stack mnemonics")
